@@ -177,7 +177,7 @@ func le(k *big.Int, n int) []byte { return vlib.LE(k, n) }
 
 // mismatch reports got != want.
 func mismatch(t vlib.TB, ad *adapter, op, class, got, want, detail string) bool {
-	key := fmt.Sprintf("C13/%s/%s/%s", ad.name, op, class)
+	key := fmt.Sprintf("C13/%s.%s/%s", ad.name, op, class)
 	return vlib.Report(t, key, fmt.Sprintf("%s: got %s want %s", detail, got, want))
 }
 
